@@ -495,12 +495,13 @@ class classproperty(_spec_property_base):
             obj = type(obj)
         cache_key = self._cache_key(obj)
         had_value = cache_key in self._cache
-        if had_value:
-            del self._cache[cache_key]
-        if self.fdel is None:
-            if had_value:
-                return
+        if self.fdel is None and not had_value:
             raise AttributeError(
                 f"Class property for `{self._qualified_name}` has no cache or override to delete."
             )
-        self.fdel.__get__(None, obj)()
+        if self.fdel is not None:
+            # As for `spec_property`: run the user's deleter first; if it raises,
+            # the deletion has failed and nothing is discarded.
+            self.fdel.__get__(None, obj)()
+        if had_value:
+            self._cache.pop(cache_key, None)
